@@ -1748,7 +1748,19 @@ def g14(ctx, res):
     # what the JSON serializer writes besides the keyword attributes must be part of equality as well
     se = ctx.func("_serialize_element")
     el = se.params[0].name
-    emitted = sorted({x.attr for x in walk_own(se.body) if isinstance(x, ast.Attribute) and norm(x.value) == el
+    # the serializer and the private helpers it hands the element to (each with its own name for the element)
+    scopes = [(se, el)]
+    for site in ctx.inf.sites(se)[0]:
+        c_ = getattr(site, "callee", None)
+        if site.kind == "call" and c_ is not None and c_.cls is None and c_.module is se.module and c_.name.startswith("_") \
+                and isinstance(site.node, ast.Call) and c_ is not se:
+            for i_, a_ in enumerate(site.node.args):
+                if norm(a_) == el and i_ < len(c_.params):
+                    scopes.append((c_, c_.params[i_].name))
+            for k_ in site.node.keywords:
+                if k_.arg and norm(k_.value) == el:
+                    scopes.append((c_, k_.arg))
+    emitted = sorted({x.attr for g_, nm_ in scopes for x in walk_own(g_.body) if isinstance(x, ast.Attribute) and norm(x.value) == nm_
                       and x.attr.startswith("__") and x.attr.endswith("__") and x.attr not in ("__class__", "__dict__")})
     eq_src = norm(eq.node)
     for hname in eq_helpers:
